@@ -830,3 +830,363 @@ def _newline_selector(ctx):
 
 
 RULES = {'C01': c01, 'C11': c11, 'C12': c12, 'C14': c14, 'C15': c15, 'C20': c20}
+
+
+# ------------------------------------------------------------------------------------- C09
+def _pinned(facts, name, val):
+    f = facts.get(name)
+    return f is not None and f[0] == f[1] == val
+
+
+def c09(ctx):
+    m = ctx.model
+    ctx.assume('descriptor flags are changed only between command lines (the property\'s quantifier)')
+    ctx.assume('flat-index helpers agree with their summaries (rule FLATIDX, checked in this run)')
+    flatidx(ctx)
+    ex, ts = transitions(ctx, 'cmd')
+    exu, tsu = transitions(ctx, 'evt')
+    n_null = 0
+    for which, tss in (('cmd', ts), ('evt', tsu)):
+        for t in tss:
+            for e in t.events:
+                if e['k'] == 'ob' and e['ob'] == 'null-call':
+                    n_null += 1
+                    ctx.check('non-null', e['ok'] is True, t.site(e),
+                              'handler %s is called without a dominating NULL test (in %s, step %s)' % (e['ptr'][1], e['fn'], short(t.frm)))
+    for t in ts:
+        for e in t.events:
+            # selection of a command by the lookup: only enabled commands of enabled groups
+            if e['k'] == 'st' and e['loc'] in (('S', 'cmd'), ('S', 'partial_cntr')) and t.frm.endswith('SEARCH_COMMAND'):
+                if e['loc'] == ('S', 'cmd') and not (isinstance(e['val'], tuple) and e['val'][0] == 'obj'):
+                    continue
+                sel = [x for x in t.events if x['k'] == 'sel']
+                ok = False
+                for x in sel:
+                    nm = x['obj']
+                    g = 'GRPS' + nm[len('CMDS'):]
+                    if t.raw.facts.eq(Lin.atom(nm + '.disable'), 0) is True and t.raw.facts.eq(Lin.atom(g + '.disable'), 0) is True:
+                        ok = True
+                ctx.check('disable-gate', ok, t.site(e),
+                          'the lookup %s without having established that the command and its group are enabled'
+                          % ('selects a command' if e['loc'] == ('S', 'cmd') else 'counts a candidate'))
+            if e['k'] == 'cb' and e['kind'] in ('cmd.run', 'cmd.read', 'cmd.write', 'var.read', 'var.write'):
+                facts = e['facts'] if e['kind'].startswith('cmd.') else None
+                if facts is None:
+                    # variable callback: the owning command is the machine's current command
+                    facts = ex.model.snapshot_obj('CMD', t.raw)
+                ctx.check('only-test', _pinned(facts, 'only_test', 0), t.site(e),
+                          '%s handler may run for a command marked test-only (step %s)' % (e['kind'], short(t.frm)))
+                ctx.check('disable-gate', _pinned(facts, 'disable', 0), t.site(e),
+                          '%s handler may run for a disabled command (step %s)' % (e['kind'], short(t.frm)))
+            if e['k'] == 'cb' and e['kind'] == 'cmd.test':
+                ctx.check('disable-gate', _pinned(e['facts'], 'disable', 0), t.site(e), 'test handler may run for a disabled command')
+            if e['k'] == 'wr' and e['region'][0] == 'vdata':
+                cf = e.get('cmd_facts', {})
+                ctx.check('only-test', _pinned(cf, 'only_test', 0), t.site(e), 'a variable of a test-only command may be written')
+                ctx.check('disable-gate', _pinned(cf, 'disable', 0), t.site(e), 'a variable of a disabled command may be written')
+        # refusals have no side effect
+        if t.frm.endswith('COMMAND_FOUND') or t.frm.endswith('PARSE_COMMAND_ARGS') and consumed_char(t) == ('const', 10):
+            acks = t.acks()
+            if acks and all(a['text'] == 'ERROR' for a in acks):
+                eff = [e for e in t.events if e['k'] == 'cb' or (e['k'] == 'wr' and e['region'][0] == 'vdata')]
+                ctx.check('refusal-clean', not eff, t.site(eff[0] if eff else None), 'a refused request has side effects: %s' % _eff(eff))
+    ctx.extra['handler_call_sites_checked'] = n_null
+    return ctx
+
+
+def flatidx(ctx):
+    """the two helpers that map a flat command index to (group, command) must implement the summaries the
+    analysis uses for them: same group walk, element index - base, disable read from that group and element"""
+    m = ctx.model
+    ms = m.ms
+    from .model import CatModel
+    from .fsm import Machines
+    raw = Machines(m.prog)
+    raw.model.overrides.clear()
+    shapes = {}
+    for role, fname in (('cmd', ms.f_cmd_by_index), ('disable', ms.f_disable_by_index)):
+        def setup(s):
+            pass
+        s = State()
+        s.pnull['DESC'] = False
+        idx = raw.it.fresh(s, 'arg:index', 'unsigned long')
+        cn = raw.it.fresh(s, 'f:commands_num', 'unsigned long')
+        s.mem[('S', 'commands_num')] = cn
+        s.facts.assume_le(idx.sub(cn), -1)
+        outs = raw.it.run_function(fname, s, [SELF, idx])
+        rets = []
+        site = ctx.site(fname, m.fn_line(fname))
+        for st_, rv in outs:
+            evs = trace_events(st_.trace)
+            for e in evs:
+                if e['k'] == 'ob' and e['ob'] in ('index', 'bound', 'null') and e['ok'] is not True:
+                    if e['ob'] == 'null':
+                        continue
+                    ctx.check('flatidx', False, 'src/cat.c:%s:%s' % (e.get('line'), fname),
+                              'unproved %s access in %s (%s of %s)' % (e['ob'], fname, e.get('index'), e.get('array')))
+            rets.append((st_, rv, evs))
+        shapes[role] = rets
+        ctx.instance('flatidx', len(outs))
+    # result of the command lookup: an element  group[g].cmd[index - base]
+    import re
+    pat = re.compile(r'^DESC\.cmd_group\[(.+)\]\.cmd$')
+    cmd_groups = set()
+    for st_, rv, evs in shapes['cmd']:
+        if rv == ('null',):
+            continue
+        ok = isinstance(rv, tuple) and rv[0] in ('obj', 'oelem')
+        g = None
+        if ok and rv[0] == 'oelem':
+            mm = pat.match(rv[1])
+            ok = mm is not None
+            if ok:
+                g = mm.group(1)
+                # element index = index - (sum of the sizes of the groups before g): it is index - j with the loop's own j
+                off = rv[2]
+                ok = any(a == 'arg:index' and c == 1 for a, c in off.terms)
+        elif ok:
+            mm = re.match(r'^DESC\.cmd_group\[(.+)\]\.cmd\[(.+)\]$', rv[1])
+            ok = mm is not None and 'arg:index' in mm.group(2)
+            g = mm.group(1) if mm else None
+        ctx.check('flatidx', ok, ctx.site(ms.f_cmd_by_index, m.fn_line(ms.f_cmd_by_index)),
+                  'the command lookup returns %r, not an element of a group selected by the index' % (rv,))
+        cmd_groups.add(g)
+    # the disable predicate reads the flags of that same group and element
+    for st_, rv, evs in shapes['disable']:
+        c = cval(rv)
+        lds = [(e['obj'], e['field']) for e in evs if e['k'] == 'ldi' and e['field'] == 'disable']
+        site = ctx.site(ms.f_disable_by_index, m.fn_line(ms.f_disable_by_index))
+        if c == 1:
+            ok = False
+            for obj, fld in lds:
+                if st_.facts.eq(Lin.atom(obj + '.disable'), 0) is False:
+                    ok = True
+            ctx.check('flatidx', ok, site, 'the disable predicate reports true without a set flag')
+        elif c == 0:
+            # either both flags of the addressed entry were read as clear, or no group contains the index
+            grp = [o for o, f in lds if re.match(r'^DESC\.cmd_group\[[^\]]+\]$', o)]
+            ent = [o for o, f in lds if '.cmd[' in o]
+            if grp or ent:
+                ok = len(grp) >= 1 and len(ent) >= 1 and all(st_.facts.eq(Lin.atom(o + '.disable'), 0) is True for o in grp[-1:] + ent[-1:])
+                ok = ok and ent[-1].startswith(grp[-1] + '.cmd[') and 'arg:index' in ent[-1]
+                ctx.check('flatidx', ok, site, 'the disable predicate reports false without both flags of the indexed entry being clear (%s)' % (lds,))
+    # the two walks advance identically: same continue condition and base update
+    sk = {}
+    for role, fname in (('cmd', ms.f_cmd_by_index), ('disable', ms.f_disable_by_index)):
+        sk[role] = _loop_skeleton(m.prog.functions[fname])
+    ctx.check('flatidx', sk['cmd'] == sk['disable'] and sk['cmd'] is not None, ctx.site(ms.f_disable_by_index, m.fn_line(ms.f_disable_by_index)),
+              'the two flat-index walks differ: %s vs %s' % (sk['cmd'], sk['disable']))
+
+
+def _loop_skeleton(fn):
+    """normalised (condition, continue-guard, base update) of the group walk, locals named by role"""
+    loops = [x for x in walk(fn['_body']) if x.get('kind') == 'ForStmt']
+    if len(loops) != 1:
+        return None
+    loop = loops[0]
+    names = {}
+
+    def norm(n):
+        k = n.get('kind')
+        if k in ('ImplicitCastExpr', 'ParenExpr', 'CStyleCastExpr'):
+            return norm(n['inner'][0])
+        if k == 'DeclRefExpr':
+            d = n['referencedDecl']
+            if d['kind'] == 'ParmVarDecl':
+                return 'P%d' % [p['id'] for p in fn['_params']].index(d['id'])
+            if d['kind'] == 'VarDecl':
+                names.setdefault(d['id'], 'v%d' % len(names))
+                return names[d['id']]
+            return d.get('name')
+        if k == 'MemberExpr':
+            return '%s.%s' % (norm(n['inner'][0]), n['name'])
+        if k in ('BinaryOperator', 'CompoundAssignOperator'):
+            return '(%s %s %s)' % (norm(n['inner'][0]), n['opcode'], norm(n['inner'][1]))
+        if k == 'UnaryOperator':
+            return '(%s%s)' % (n['opcode'], norm(n['inner'][0]))
+        if k == 'ArraySubscriptExpr':
+            return '%s[%s]' % (norm(n['inner'][0]), norm(n['inner'][1]))
+        if k == 'IntegerLiteral':
+            return n['value']
+        return k
+    init, _, cond, inc, body = loop['inner']
+    first_if = None
+    pre = []
+    for st in body.get('inner', ()):
+        if st.get('kind') == 'IfStmt' and first_if is None:
+            first_if = st
+            break
+        pre.append(norm(st))
+    if first_if is None:
+        return None
+    guard = norm(first_if['inner'][0])
+    then = first_if['inner'][1]
+    upd = [norm(x) for x in then.get('inner', ()) if x.get('kind') != 'ContinueStmt'] if then.get('kind') == 'CompoundStmt' else [norm(then)]
+    has_continue = any(x.get('kind') == 'ContinueStmt' for x in walk(then))
+    return (norm(init) if init else None, norm(cond) if cond else None, norm(inc) if inc else None, tuple(pre), guard, tuple(upd), has_continue)
+
+
+RULES['C09'] = c09
+
+
+# ------------------------------------------------------------------------------------- C10
+CODES = ['ERROR', 'DATA_OK', 'DATA_NEXT', 'NEXT', 'OK', 'HOLD', 'HOLD_EXIT_OK', 'HOLD_EXIT_ERROR', 'PRINT_CMD_LIST_OK']
+
+
+def _action(t, which, base):
+    """abstract action of one loop-state transition, from its effects and its target"""
+    st = t.ex.ms.prog.enum_types['cat_state' if which == 'cmd' else 'cat_unsolicited_state']['consts']
+    pre = 'CAT_STATE_' if which == 'cmd' else 'CAT_UNSOLICITED_STATE_'
+    acks = [a['text'] for a in t.acks()]
+    to = t.to[len(pre):]
+    wsa = cval(t.post.mem.get(base + ('write_state_after',)))
+    wsa_name = {v: k[len(pre):] for k, v in st.items()}.get(wsa)
+    own_st = [e for e in t.stores() if e.get('via') is None]
+    reformat = any(e['k'] == 'copy' and isinstance(e.get('src'), tuple) and e['src'][0] == 'mem' and e['src'][1][0] == 'dstr'
+                   and e['src'][1][1].endswith('CMD.name') and cval(e['dst'][2]) == 0 for e in t.events)
+    hold_req = [cval(e['val']) for e in t.events if e['k'] == 'st' and e['loc'] == ('S', 'hold_exit_status')]
+    if which == 'cmd':
+        if cval(t.post.mem.get(('S', 'hold_state_flag'))) == 1 and cval(t.pre.mem.get(('S', 'hold_state_flag'))) == 0:
+            return 'hold' if to == 'HOLD' and not acks else 'hold?'
+        if to == 'PRINT_CMD' and not acks:
+            return 'list'
+        if reformat:
+            return 'reformat'
+        if acks:
+            if to == 'FLUSH_IO_WRITE_WAIT' and wsa_name == 'AFTER_FLUSH_RESET' and len(set(acks)) == 1:
+                return 'fin_ok' if acks[0] == 'OK' else 'fin_err'
+            return 'ack?'
+        if to == 'FLUSH_IO_WRITE_WAIT':
+            ws = cval(t.post.mem.get(base + ('write_state',)))
+            return 'flush>%s' % wsa_name if ws == 0 else 'rawflush>%s' % wsa_name
+        if t.to == t.frm and not own_st:
+            return 'stay'
+        return 'other:%s' % to
+    else:
+        req = ''
+        if hold_req:
+            req = '+release(%s)' % ('OK' if hold_req[0] == 1 else 'ERR')
+        if acks:
+            return 'ack?'
+        if reformat:
+            return 'reformat' + req
+        if to == 'IDLE':
+            return 'fin' + req
+        if to == 'FLUSH_IO_WRITE_WAIT':
+            return 'flush>%s' % wsa_name + req
+        if t.to == t.frm and not own_st:
+            return 'stay' + req
+        return 'other:%s' % to + req
+
+
+def _ref_table(which, kind):
+    """reference: handler return code -> allowed actions (None = the property and cat.h are silent)"""
+    if which == 'cmd':
+        if kind in ('cmd.write', 'cmd.run'):
+            tab = {'OK': {'fin_ok'}, 'DATA_OK': {'fin_ok'}, 'DATA_NEXT': {'stay'}, 'NEXT': {'stay'}, 'HOLD': {'hold'},
+                   'HOLD_EXIT_OK': {'fin_err'}, 'HOLD_EXIT_ERROR': {'fin_err'}, 'PRINT_CMD_LIST_OK': {'fin_err'},
+                   'ERROR': {'fin_err'}, 'other': {'fin_err'}}
+            if kind == 'cmd.run':
+                tab['PRINT_CMD_LIST_OK'] = {'list'}
+            return tab
+        rt = 'READ' if kind == 'cmd.read' else 'TEST'
+        tab = {'OK': {'fin_ok'}, 'DATA_OK': {'flush>AFTER_FLUSH_OK'}, 'DATA_NEXT': {'flush>AFTER_FLUSH_FORMAT_%s_ARGS' % rt},
+               'NEXT': {'reformat'}, 'HOLD': {'hold'}, 'HOLD_EXIT_OK': None, 'HOLD_EXIT_ERROR': None,
+               'PRINT_CMD_LIST_OK': {'fin_err'} if rt == 'READ' else {'list'}, 'ERROR': {'fin_err'}, 'other': {'fin_err'}}
+        return tab
+    rt = 'READ' if kind == 'cmd.read' else 'TEST'
+    return {'OK': {'fin'}, 'DATA_OK': {'flush>AFTER_FLUSH_OK'}, 'DATA_NEXT': {'flush>AFTER_FLUSH_FORMAT_%s_ARGS' % rt},
+            'NEXT': {'reformat'}, 'HOLD': None, 'HOLD_EXIT_OK': {'fin+release(OK)', 'fin'}, 'HOLD_EXIT_ERROR': {'fin+release(ERR)', 'fin'},
+            'PRINT_CMD_LIST_OK': {'fin'} if rt == 'READ' else None, 'ERROR': {'fin'}, 'other': {'fin'}}
+
+
+def c10(ctx):
+    m = ctx.model
+    E = m.prog.enums
+    codes = {c: E['CAT_RETURN_STATE_' + c] for c in CODES}
+    others = [min(codes.values()) - 1, max(codes.values()) + 1, 100, -100]
+    ctx.assume('a handler may return any int; an event handler does not return HOLD (O1)')
+    tables = {}
+    for which in ('cmd', 'evt'):
+        ex, ts = transitions(ctx, which)
+        base = ('S',) if which == 'cmd' else ('S', 'unsolicited_fsm')
+        for t in ts:
+            cbs = [e for e in t.evs('cb') if e['kind'].startswith('cmd.')]
+            if not cbs:
+                if which == 'evt':
+                    ctx.check('no-ack-for-events', not t.acks(), t.site(), 'the event machine produces a result code')
+                continue
+            if t.count(lambda e: e['k'] == 'cb' and e['kind'].startswith('cmd.'))[1] > 1:
+                ctx.check('table', False, t.site(cbs[0]), 'two command handlers run in one step')
+                continue
+            e = cbs[0]
+            ret = e['ret']
+            act = _action(t, which, base)
+            tab = tables.setdefault((which, e['kind']), {})
+            for cname, cv in list(codes.items()) + [('other', o) for o in others]:
+                if t.raw.facts.eq(ret, cv) is not False:
+                    tab.setdefault(cname, {}).setdefault(act, t)
+            if which == 'evt':
+                ctx.check('no-ack-for-events', not t.acks(), t.site(e), 'an event handler step produces a result code')
+    want_kinds = [('cmd', 'cmd.write'), ('cmd', 'cmd.run'), ('cmd', 'cmd.read'), ('cmd', 'cmd.test'), ('evt', 'cmd.read'), ('evt', 'cmd.test')]
+    for wk in want_kinds:
+        if wk not in tables:
+            raise AnalysisBroken('no transition calls the %s handler in the %s machine' % (wk[1], wk[0]))
+    for (which, kind), tab in sorted(tables.items()):
+        ref = _ref_table(which, kind)
+        row = {}
+        for cname in CODES + ['other']:
+            acts = tab.get(cname, {})
+            row[cname] = sorted(acts)
+            if which == 'evt' and cname == 'HOLD':
+                continue
+            want = ref[cname]
+            site = 'src/cat.c:%s/%s' % (which, kind)
+            if not acts:
+                ctx.check('table', False, site, 'return code %s of the %s handler (%s machine) is not handled at all' % (cname, kind, which))
+                continue
+            if want is None:
+                ctx.instance('table-dontcare')
+                continue
+            for a, t in acts.items():
+                # a re-format may end in an error when the name does not fit: allowed next to 'reformat'
+                ok = a in want
+                ctx.check('table', ok, t.site(), '%s machine, %s handler returning %s: response action is %s, documented is %s'
+                          % (which, kind, cname, a, sorted(want)))
+        ctx.sample({'machine': which, 'handler': kind, 'table': row})
+    # continuations after an emitted buffer
+    ex, ts = transitions(ctx, 'cmd')
+    for t in ts:
+        if t.frm.endswith('AFTER_FLUSH_OK'):
+            ctx.check('continuations', t.count(t.is_ack) == (1, 1) and all(a['text'] == 'OK' for a in t.acks()), t.site(),
+                      'after the data line the response is not finished with exactly one OK')
+        if t.frm.endswith('AFTER_FLUSH_FORMAT_READ_ARGS') or t.frm.endswith('AFTER_FLUSH_FORMAT_TEST_ARGS'):
+            ctx.check('continuations', _action(t, 'cmd', ('S',)) in ('reformat',), t.site(),
+                      'after DATA_NEXT the buffer is not formatted afresh (%s)' % _action(t, 'cmd', ('S',)))
+            ctx.check('continuations', not t.evs('io_write'), t.site(), 'DATA_NEXT emits twice')
+    exu, tsu = transitions(ctx, 'evt')
+    for t in tsu:
+        if t.frm.endswith('AFTER_FLUSH_OK'):
+            ctx.check('continuations', _action(t, 'evt', ('S', 'unsolicited_fsm')) == 'fin', t.site(), 'after the event data line the event is not finished')
+        if t.frm.endswith('AFTER_FLUSH_FORMAT_READ_ARGS') or t.frm.endswith('AFTER_FLUSH_FORMAT_TEST_ARGS'):
+            ctx.check('continuations', _action(t, 'evt', ('S', 'unsolicited_fsm')) == 'reformat', t.site(), 'after DATA_NEXT the event buffer is not formatted afresh')
+    # variable callbacks: a non-zero result aborts before the command handler
+    for which in ('cmd', 'evt'):
+        ex, ts = transitions(ctx, which)
+        for t in ts:
+            for e in t.evs('cb'):
+                if e['kind'] in ('var.read', 'var.write'):
+                    nz = t.raw.facts.eq(e['ret'], 0) is False
+                    if nz:
+                        after_cmd = any(x['kind'].startswith('cmd.') for x in t.evs('cb'))
+                        if which == 'cmd':
+                            ok = set(a['text'] for a in t.acks()) == {'ERROR'} and t.count(t.is_ack) == (1, 1) and not after_cmd
+                        else:
+                            ok = t.to.endswith('_IDLE') and not after_cmd
+                        ctx.check('var-callback', ok, t.site(e), 'a failing %s callback does not abort the command with ERROR at once' % e['kind'])
+                    else:
+                        ctx.instance('var-callback')
+    return ctx
+
+
+RULES['C10'] = c10
